@@ -356,11 +356,13 @@ def reset_backend():
     pyhf.set_backend('numpy', pyhf.optimize.scipy_optimizer())
 
 
-def cli_invoke(args, stdin=None):
-    """click's CliRunner on the pyhf group, from the state a fresh process would have"""
+def cli_invoke(args, stdin=None, fresh=True):
+    """click's CliRunner on the pyhf group, from the state a fresh process would have (fresh=False: from whatever state the
+    previous invocation of the same process left behind -- the steps of a session)"""
     from click.testing import CliRunner
     import pyhf.cli
-    reset_backend()
+    if fresh:
+        reset_backend()
     r = CliRunner().invoke(pyhf.cli.cli, args, input=stdin, catch_exceptions=True)
     e = r.exception
     return dict(exit=r.exit_code, stdout=r.stdout, exc=(core.exc_enum(e) if e is not None and not isinstance(e, SystemExit) else None),
@@ -623,15 +625,24 @@ def values_equal(a, b, rtol):
 LAST = {}
 
 
-def differential(case, d, run=cli_invoke):
-    """None if the command line agrees with the library on this case, else (kind, text, details)"""
+def cli_invoke_keep(args, stdin=None):
+    return cli_invoke(args, stdin, fresh=False)
+
+
+def differential(case, d, run=cli_invoke, lib=None, rtol_override=None):
+    """None if the command line agrees with the library on this case, else (kind, text, details).  `lib`: the library result
+    computed beforehand (sessions: the reference calls must not touch the state between the invocations)"""
     cmd = case['cmd']
     rtol = INFER_RTOL if cmd in ('cls', 'fit') else 0
+    if rtol_override is not None:
+        rtol = rtol_override
     if cmd == 'json2xml':
         case = dict(case, _clidir=os.path.join(d, 'cli-out'), _libdir=os.path.join(d, 'lib-out'))
         shutil.rmtree(case['_clidir'], ignore_errors=True)
         shutil.rmtree(case['_libdir'], ignore_errors=True)
-    lib = library(case)
+    if lib is None:
+        lib = library(case)
+    lib = tuple(lib)
     LAST['lib'] = lib[0]
     args, stdin, outfile = build_args(case, d)
     with small_toys(cmd == 'cls' and case.get('calctype') == 'toybased'):
@@ -747,6 +758,143 @@ def culprit(case, d, kind):
         except Exception:
             continue
     return '+'.join(out)
+
+
+# ----------------------------------------------------------------------------------------------------------------------
+# sessions: several invocations in ONE process.  Every invocation must behave as its own options say (absent option = its
+# documented default), whatever an earlier invocation of the same process selected.
+STATE_OPTIONS = ('backend', 'optimizer', 'optconf')
+SESSION_MIXED_RTOL = 1e-4
+
+
+def session_run(steps, d):
+    """the reference value of every step is the library call made under the options of THAT step alone, from a fresh backend
+    state (computed before the first invocation, so that no reference call sits between two invocations); then the command
+    lines run one after the other through click's CliRunner with no reset in between.
+    None, or (index of the first disagreeing step, (kind, text, details))"""
+    libs = [library(c) for c in steps]
+    reset_backend()
+    tl = [{'np': 'numpy', 'torch': 'pytorch', 'tf': 'tensorflow'}.get(c.get('backend', 'numpy'), c.get('backend', 'numpy')) for c in steps]
+    try:
+        for k, (c, lib) in enumerate(zip(steps, libs)):
+            # the tensor libraries agree with each other to the optimiser tolerance only, and the command line (documented: "set the
+            # backend if not NumPy") does not go back to numpy: after a step that named another backend the values are compared at
+            # SESSION_MIXED_RTOL; exit status and shape are compared as always
+            mixed = any(t != tl[k] for t in tl[:k])
+            res = differential(c, os.path.join(d, 'step%d' % k), run=cli_invoke if k == 0 else cli_invoke_keep, lib=lib,
+                               rtol_override=SESSION_MIXED_RTOL if mixed else None)
+            if res is not None:
+                return k, res
+        return None
+    finally:
+        reset_backend()
+
+
+def session_shrink(steps, d, k, res):
+    """smallest history that still makes step k disagree in the same way: the step alone (then it is no session effect), else one
+    earlier step + the step, else the prefix as found.  Returns (steps, index, res, stale options)"""
+    kind = res[0]
+    try:
+        r1 = differential(steps[k], d + '-alone')
+    except Exception:
+        r1 = None
+    if r1 is not None and r1[0] == kind:
+        return [steps[k]], 0, r1, ''
+    best = (steps[:k + 1], k, res)
+    for j in range(k - 1, -1, -1):
+        try:
+            r2 = session_run([steps[j], steps[k]], d + '-pair')
+        except Exception:
+            continue
+        if r2 is not None and r2[0] == 1 and r2[1][0] == kind:
+            best = ([steps[j], steps[k]], 1, r2[1])
+            break
+    hist, idx, rr = best
+    stale = []
+    if len(hist) == 2:
+        for o in STATE_OPTIONS:
+            if o in hist[0] and hist[0].get(o) != hist[1].get(o):
+                try:
+                    r3 = session_run([{kk: v for kk, v in hist[0].items() if kk != o}, hist[1]], d + '-stale')
+                except Exception:
+                    continue
+                if r3 is None:
+                    stale.append(o)
+    return hist, idx, rr, '+'.join(stale)
+
+
+def report_session(ctx, steps, d, k, res):
+    hist, idx, (kind, text, det), stale = session_shrink(steps, d, k, res)
+    if len(hist) == 1:
+        report(ctx, hist[0], d + '-alone', (kind, text, det))
+        return
+    cmd = hist[idx]['cmd']
+    sig = '%s:%s:session%s' % (cmd, kind, (':stale-' + stale) if stale else '')
+    a0 = [build_args(c, os.path.join(d, 'show%d' % i))[0] for i, c in enumerate(hist)]
+    ctx.violation(sig, 'invocation %d of a session in one process (%s): `pyhf %s`: %s%s; the same command line agrees with the library when it is the first of its process'
+                  % (idx + 1, ' ; '.join('pyhf ' + ' '.join(x if len(x) < 40 else '<file>' for x in a) for a in a0), cmd, text,
+                     (' [setting of the earlier invocation still in force: %s]' % stale) if stale else ''),
+                  dict(kind='cli-session', steps=[case_public(c) for c in hist], failing_step=idx, runner='CliRunner, one process, no reset between the invocations',
+                       impl=det, stale=stale,
+                       expected='every invocation: exit 0 iff the library call under the options of that invocation alone succeeds; output carries that library value',
+                       theorem='C19 differential run (validation), sessions / C19_exit_iff_library_ok'))
+
+
+def gen_sessions(ctx, rng):
+    """short sessions of 2-3 `fit`/`cls` invocations mixing --backend/--optimizer/--optconf values and their absence.  Always
+    present: a step with every state option absent after a step that names an optimiser / optimiser settings / a backend."""
+    ws = infer_ws(rng, 1)
+    patch = infer_patch(rng, ws)
+    heavy = ['jax'] if ctx.quick else ['jax', 'pytorch', 'tensorflow']
+
+    def step(state=None, plain=False):
+        cmd = rng.choice(['fit', 'cls'])
+        c = dict(cmd=cmd, ws=ws, via=rng.choice(['file', 'stdin']), out=rng.choice(['stdout', 'file']))
+        if cmd == 'fit':
+            c['value'] = True
+        else:
+            c['test_poi'] = rng.choice([1.0, 0.5, 1.5, 0])
+            if rng.random() < 0.3:
+                c['test_stat'] = 'q'
+        if rng.random() < 0.3:
+            c['measurement'] = 'shifted'
+        if rng.random() < 0.25:
+            c['patches'] = [patch]
+        if plain:
+            return c
+        if state is None:
+            state = rng.sample(STATE_OPTIONS, rng.choice([0, 1, 1, 2, 3]))
+        opt = None
+        if 'optimizer' in state:
+            opt = c['optimizer'] = rng.choice(['minuit', 'minuit', 'scipy'])
+        if 'optconf' in state:
+            c['optconf'] = rng.choice([['maxiter=1'], ['maxiter=200000'], ['tolerance=0.01'], ['maxiter=0']] if opt != 'minuit' else
+                                      [['strategy=0'], ['strategy=2', 'tolerance=0.01'], ['maxiter=1'], ['tolerance=0']])
+        if 'backend' in state:
+            c['backend'] = rng.choice(['numpy', 'np'] + heavy) if rng.random() < 0.6 else rng.choice(heavy)
+        return c
+    sessions = [[step(['optimizer']), step(plain=True)],
+                [step(['optconf']), step(plain=True)],
+                [step(['backend', 'optimizer', 'optconf']), step(plain=True), step()]]
+    sessions[0][0]['optimizer'] = 'minuit'
+    for _ in range(ctx.n(7, 30)):
+        s = [step() for _ in range(rng.choice([2, 3]))]
+        if rng.random() < 0.4:
+            s[-1] = step(plain=True)
+        sessions.append(s)
+    # NOT generated: going back from a non-numpy backend to numpy or to another backend within one process.  pyhf's commands
+    # "set the backend if not NumPy": `--backend numpy` (given or defaulted) after `--backend jax` keeps jax on the unchanged tree
+    # (observable: `cls --backend np --optimizer minuit --optconf tolerance=0` after `cls --backend jax` exits 1, alone it exits 0).
+    # Reported as a candidate finding; until it is decided the sessions stay on the non-numpy backend once one was named.
+    for s in sessions:
+        cur = 'numpy'
+        for c in s:
+            b = {'np': 'numpy'}.get(c.get('backend', 'numpy'), c.get('backend', 'numpy'))
+            if cur != 'numpy' and b != cur:
+                c['backend'] = cur
+            else:
+                cur = b
+    return sessions
 
 
 # ----------------------------------------------------------------------------------------------------------------------
@@ -1141,14 +1289,19 @@ def run(ctx):
                     'the dataflow is syntactic and conservative (weak updates): "consumed" is a necessary condition, the values are checked by the differential run',
                     'click (option parsing, CliRunner), json, yaml, jsonpatch are not modelled',
                     'toybased hypotest is run with 24 toys and a fixed numpy seed on both sides (ToyCalculator.__init__ wrapped by the harness)']
-    ctx.assumptions += ['CliRunner invocations start from the numpy/scipy backend state a fresh process has']
+    ctx.assumptions += ['single CliRunner invocations, and the first invocation of a session, start from the numpy/scipy backend state a fresh process has']
     found = False
     cases = []
+    sessions = []
     cdir = os.path.join(core.VERIF, 'corpus', 'C19')
     if os.path.isdir(cdir):
         for fn in sorted(os.listdir(cdir)):
             if fn.endswith('.json'):
-                cases.append(json.load(open(os.path.join(cdir, fn)))['case'])
+                body = json.load(open(os.path.join(cdir, fn)))
+                if 'session' in body:
+                    sessions.append(body['session'])
+                else:
+                    cases.append(body['case'])
     ncorpus = len(cases)
     cases += gen_cases(ctx, rng)
     stats = dict(by_command={}, exit_nonzero=0, via={}, out={}, backends={}, optimizers={}, file_vs_stdout_pairs=0, subprocess=0,
@@ -1202,6 +1355,36 @@ def run(ctx):
                               dict(kind='cli-file-stdout', case=case_public(case), impl=fv[1], expected='identical text', theorem='C19_file_equals_stdout'))
                 found = True
     ctx.log('CliRunner cases done: %d' % len(cases))
+    # sessions: several invocations in one process, each against the library under its own options
+    sessions += gen_sessions(ctx, rng)
+    sstat = dict(sessions=0, invocations=0, default_after_nondefault=0, state_option_changes=0, backends={}, optimizers={})
+    for i, steps in enumerate(sessions):
+        d = os.path.join(ctx.work, 'session%d' % i)
+        try:
+            sres = session_run(steps, d)
+        except Exception:
+            import traceback
+            tie = tie or ('differential run crashed on a session: %s' % traceback.format_exc()[-600:])
+            continue
+        sstat['sessions'] += 1
+        sstat['invocations'] += len(steps)
+        for a, b in zip(steps, steps[1:]):
+            ch = [o for o in STATE_OPTIONS if a.get(o) != b.get(o)]
+            sstat['state_option_changes'] += len(ch)
+            if ch and not any(o in b for o in STATE_OPTIONS):
+                sstat['default_after_nondefault'] += 1
+        for c in steps:
+            for k, dd in (('backend', sstat['backends']), ('optimizer', sstat['optimizers'])):
+                dd[c.get(k, '<absent>')] = dd.get(c.get(k, '<absent>'), 0) + 1
+        sigs.add(json.dumps([{k: (v if k != 'ws' else hashlib.sha1(json.dumps(v, sort_keys=True).encode()).hexdigest()[:8]) for k, v in case_public(c).items()}
+                             for c in steps], sort_keys=True, default=str))
+        if sres is not None:
+            report_session(ctx, steps, d, sres[0], sres[1])
+            found = True
+    stats['sessions'] = sstat
+    ctx.notes.append('sessions: once a session named a non-numpy backend its later steps name the same backend (pyhf does not go back to numpy within one '
+                     'process: candidate finding, not gated); optimizer/optconf/defaults are mixed freely')
+    ctx.log('sessions done: %d' % len(sessions))
     # real processes
     srun = sub_invoke_factory()
     from concurrent.futures import ThreadPoolExecutor
@@ -1219,7 +1402,7 @@ def run(ctx):
     ctx.log('subprocess cases done')
     if tie and not found:
         ctx.violation('tie-broken', tie[:300], dict(kind='tie', detail=tie, theorem='props/C19.v'), nofail=True)
-    ctx.coverage.update(evaluations=len(cases) + len(scases), distinct_nontrivial=len(sigs),
+    ctx.coverage.update(evaluations=len(cases) + len(scases) + sstat['invocations'], distinct_nontrivial=len(sigs),
                         rule='an invocation with at least one option away from its default, distinct by (command, options, input/output route, input hash); '
                              'each is compared with the direct library call (exit status, values)',
                         validation_note='the differential run is VALIDATION, not proof: click parsing, process exit and serialisation are only observable by running them',
@@ -1240,6 +1423,17 @@ def replay(body):
         if res is not None:
             print(json.dumps(res[2], indent=1, default=str)[:3000])
         return 0 if res is None else 1
+    if body.get('kind') == 'cli-session':
+        d = os.path.join(core.WORK, 'C19-replay')
+        shutil.rmtree(d, ignore_errors=True)
+        r = session_run(body['steps'], d)
+        for i, c in enumerate(body['steps']):
+            print('invocation %d:' % (i + 1), json.dumps({k: v for k, v in c.items() if k not in ('ws', 'ws2', 'patchset')}, default=str))
+        print('result:', 'every invocation agrees with the library call under its own options' if r is None else
+              'invocation %d DISAGREES: %s: %s' % (r[0] + 1, r[1][0], r[1][1]))
+        if r is not None:
+            print(json.dumps(r[1][2], indent=1, default=str)[:3000])
+        return 0 if r is None else 1
     if body.get('kind') == 'cli-file-stdout':
         d = os.path.join(core.WORK, 'C19-replay')
         r = file_vs_stdout(body['case'], d)
